@@ -138,6 +138,12 @@ func (h *Handler) validRequestedIP(lease *Lease, ip netip.Addr) bool {
 	return true
 }
 
+// isHostOrRouter reports whether ip is our own or the router's address. These are normally skipped because
+// the session tracks them, but the router's host entry is purged when the router is silent on the LAN.
+func (h *Handler) isHostOrRouter(ip netip.Addr) bool {
+	return ip == h.session.NICInfo.HostAddr4.IP || ip == h.session.NICInfo.RouterAddr4.IP
+}
+
 // allocIPOffer allocates a free IP to the lease entry
 func (h *Handler) allocIPOffer(lease *Lease, reqIP netip.Addr) error {
 	if reqIP.Is4() && h.validRequestedIP(lease, reqIP) {
@@ -157,7 +163,7 @@ func (h *Handler) allocIPOffer(lease *Lease, reqIP netip.Addr) error {
 	for lease.subnet.nextIP.Less(lease.subnet.broadcast) {
 		// for tmpIP.IsValid() {
 		if l := h.findByIP(lease.subnet.nextIP); l == nil || l.State == StateFree {
-			if h.session.FindIP(lease.subnet.nextIP) == nil {
+			if h.session.FindIP(lease.subnet.nextIP) == nil && !h.isHostOrRouter(lease.subnet.nextIP) {
 				ip = lease.subnet.nextIP
 				lease.subnet.nextIP = lease.subnet.nextIP.Next()
 				break
@@ -174,7 +180,7 @@ func (h *Handler) allocIPOffer(lease *Lease, reqIP netip.Addr) error {
 	lease.subnet.nextIP = lease.subnet.FirstIP
 	for lease.subnet.nextIP.Less(lease.subnet.broadcast) {
 		if l := h.findByIP(lease.subnet.nextIP); l == nil || l.State == StateFree {
-			if h.session.FindIP(lease.subnet.nextIP) == nil {
+			if h.session.FindIP(lease.subnet.nextIP) == nil && !h.isHostOrRouter(lease.subnet.nextIP) {
 				ip = lease.subnet.nextIP
 				lease.subnet.nextIP = lease.subnet.nextIP.Next()
 				break
